@@ -7,6 +7,9 @@ of the first error and the final registers (Trace_TexVM.tla, binding F)."""
 from vlib import *
 
 ASSUMPTIONS = [
+    "TexVM: the source text of every generated program is read by the specification of the lexer (TexLexer.tla) "
+    "under the prelude's category codes; it must lex to exactly the token list the model runs (verdict "
+    "source-does-not-lex-to-the-program otherwise: a defect of the harness's renderer, reported like a violation)",
     "TexVM: programs are one line under plain category codes and \\endlinechar=-1; token lists that no source "
     "text produces (space token after a control word or another space, at the start or the end of the line) "
     "are dropped before running",
@@ -30,7 +33,7 @@ def texvm_part(ctx, n, seed_offset, name="TexVM.whole_programs", cut=False):
     result; the model runs the first part, then the second part from the state that is left."""
     ev = ctx.work / ("texvm-cut.ndjson" if cut else "texvm.ndjson")
     vh(["tv-events", f"seed={ctx.seed * 7919 + seed_offset}", f"n={n}", f"out={ev}"] + (["cut=1"] if cut else []))
-    nev, bad = validate_calls(ctx, "Trace_TexVM", "Trace_TexVM.cfg", ev)
+    nev, bad = validate_calls(ctx, "Trace_TexVM", "Trace_TexVM.cfg", ev, parts=max(1, min(NCPU - 2, n // 600 + 1)))
 
     def desc(e, v):
         def show(cs):
